@@ -247,7 +247,7 @@ func (in *interp) exec(ss ast.SelectionSet, obj *Obj, rt string) map[string]inte
 			val = "x=null"
 		case obj == nil:
 			if rt == "Mutation" && in.onMutation != nil {
-				in.onMutation(f.Name)
+				in.onMutation(c.key) // one execution per response key
 			}
 			val = in.store.Roots[rt+"."+f.Name]
 			if rt == "Mutation" {
